@@ -934,16 +934,18 @@ def judge_trn_replay(mout, pre, post, h):
     rho = fh(m["rho"]); sol = fvec(m["sol"]); ns = sum(v * v for v in sol)
     if post["ntrial"] == "1" and (any(abs(rho - t) <= 1e-6 * max(1.0, abs(rho)) for t in (0.25, 0.75, fh(pre["ratio"]))) or abs(ns - 0.99 * d0 * d0) <= 1e-6 * d0 * d0):
         return cls + "/threshold-rounding-sensitive", None, mon
-    # double instance.  The CG iterates of the code (BLAS summation order) and of the model (left-to-right sums) differ by rounding
-    # errors; the conjugate-gradient recurrences control the RESIDUAL H s + g, the step itself carries these errors amplified by
-    # the inverse Hessian (1e-8 was seen at condition 1e3 after n iterations).  Two steps agree when they agree to 1e-9 directly
-    # or, failing that, in the residual: |H (s_model - s_impl)|_inf <= 1e-9 |g|_inf (class residual-metric)
-    n_ = h["n"]; hs = fvec(pre["hess"]); Hm = [hs[i_ * n_:(i_ + 1) * n_] for i_ in range(n_)]; gmax = max([abs(v) for v in fvec(pre["grad"])] + [1e-300])
+    # double instance.  The CG iterates of the code (BLAS summation order, fused multiply-adds inside BLAS) and of the model differ by
+    # rounding errors that the conjugate-gradient recurrences amplify (2e-8 was seen at condition 1e3, 1e-4 at condition 1e8).  The
+    # driver therefore solves every sub-problem twice, the second time with the coordinates reversed (the same problem, every sum
+    # accumulated in the opposite order): [spread] is how far the model's own step moves under the summation order alone.  Two
+    # steps agree when they differ by at most 1e-9 (relative to max(1, |point|)) + 16 * spread; a step whose spread exceeds 1e-3 of
+    # its length, or whose two model runs leave the CG through different exits, is counted as order-sensitive and not compared
+    spread = fh(m["spread"]); slen = max([abs(v) for v in sol] + [1e-300])
+    if not spread <= 1e-3 * slen or m["rexit"] != m["exit"] or m["riters"] != m["iters"]: return cls + "/summation-order-sensitive-not-compared", None, mon
     def close(a, b):
         sc_ = max([1.0] + [abs(v) for v in b])
         if all(abs(x - y) <= TOL * sc_ for x, y in zip(a, b)): return 1
-        dlt = [x - y for x, y in zip(a, b)]
-        if all(abs(sum(Hm[i_][j_] * dlt[j_] for j_ in range(n_))) <= TOL * gmax for i_ in range(n_)): return 2
+        if all(abs(x - y) <= TOL * sc_ + 16 * spread for x, y in zip(a, b)): return 2
         return 0
     metric = 1
     if post["ntrial"] == "1":
@@ -957,7 +959,7 @@ def judge_trn_replay(mout, pre, post, h):
     pm = fvec(m["pt"]); pi = fvec(post["pt"]); sc = max([1.0] + [abs(v) for v in pi])
     if not close(pm, pi): return cls, "point: model (double instance) %s, implementation %s" % (pm, pi), mon
     if not abs(fh(m["val"]) - fh(post["val"])) <= TOL * max(1.0, abs(fh(post["val"]))): return cls, "value: model %r, implementation %r" % (fh(m["val"]), fh(post["val"])), mon
-    if metric == 2: cls += "/residual-metric"
+    dbl = "/double-1e-9" if metric == 1 else "/double-within-summation-order-spread"
     # rational instance
     if m.get("q") == "1":
         exact = post["ex"] == "1" and m["sqex"] == "1"
@@ -976,7 +978,7 @@ def judge_trn_replay(mout, pre, post, h):
         if fh(m["qdelta"]) != d1: return cls, "radius: rational model %r, implementation %r" % (fh(m["qdelta"]), d1), mon
         if not abs(fh(m["qval"]) - fh(post["val"])) <= TOL * max(1.0, abs(fh(post["val"]))): return cls, "value: rational model %r, implementation %r" % (fh(m["qval"]), fh(post["val"])), mon
         return cls + "/rational-1e-9", None, mon
-    return cls + "/double-1e-9", None, mon
+    return cls + dbl, None, mon
 
 
 def main():
